@@ -231,4 +231,5 @@ contract(
                                      "result['a_batch'] == bytes_of(self._a_batch) and result['g_batch'] == bytes_of(self._g_batch)"),
              ('tensors_kept', 'awaited(self._a_factor) is old(awaited(self._a_factor)) and awaited(self._g_factor) is old(awaited(self._g_factor))')],
     modifies=['self._a_factor', 'self._g_factor', '*.resolved'], theories=['opaque_nonlinear'],
+    fresh_result=True,      # a dict literal built by the call (its own body is checked against this contract)
 )
